@@ -48,10 +48,33 @@ function ENCX(v){
     for (var i=0;i<OBJIDS.length;i++) if (OBJIDS[i][0]===v) return {t:"obj", id:OBJIDS[i][1]};
     for (i=0;i<REG.length;i++) if (REG[i][0]===v) return REG[i][1];
     if (v === GLOBALOBJ) return {t:"global"};
-    if (Object.prototype.toString.call(v) === "[object Array]") return {t:"new", o:SHOW(v)};
+    var cls = Object.prototype.toString.call(v).slice(8,-1);
+    if (cls === "Array") return {t:"new", o:SHOW(v)};
+    if (cls === "String" || cls === "Number" || cls === "Boolean") {
+      // a wrapper object (ToObject of a primitive receiver): class, primitive value and identity
+      // (k = position among the distinct wrappers seen in this case; 1 for all calls iff it is one object)
+      var k = 0;
+      for (i=0;i<WRAPS.length;i++) if (WRAPS[i]===v) k = i+1;
+      if (k === 0) { WRAPS[WRAPS.length] = v; k = WRAPS.length; }
+      return {t:"wrap", cls:cls, k:k, pv:ENC(PRIMOF(cls, v))};
+    }
     return {t:"obj", id:-1};
   }
   return ENC(v);
+}
+var WRAPS = [], PROTOCLEAN = [];
+function PRIMOF(cls, v){
+  return cls === "String" ? String.prototype.valueOf.call(v) : cls === "Number" ? Number.prototype.valueOf.call(v) : Boolean.prototype.valueOf.call(v);
+}
+// the this value of a callback: a wrapper made for a primitive thisArg is a fresh object per call (no identity)
+function ENCTHIS(v){
+  if (v !== null && typeof v === "object" && v !== GLOBALOBJ && !ISIN(WRAPS, v)) {
+    var known = false;
+    for (var i=0;i<OBJIDS.length;i++) if (OBJIDS[i][0]===v) known = true;
+    var cls = Object.prototype.toString.call(v).slice(8,-1);
+    if (!known && (cls === "String" || cls === "Number" || cls === "Boolean")) return {t:"wrap", cls:cls, k:0, pv:ENC(PRIMOF(cls, v))};
+  }
+  return ENCX(v);
 }
 function OWNX(o,n){
   var d = Object.getOwnPropertyDescriptor(o,n);
@@ -73,6 +96,8 @@ function APROTO(){
   return props;
 }
 function CLEANUP(){
+  for (var j=0;j<PROTOCLEAN.length;j++) delete PROTOCLEAN[j][0][PROTOCLEAN[j][1]];
+  PROTOCLEAN = [];
   var names = Object.getOwnPropertyNames(Array.prototype);
   if (names.length !== APNAMES0.length)
     for (var i=0;i<names.length;i++){ var n = names[i]; if (n !== "length" && !ISIN(APNAMES0, n)) delete Array.prototype[n]; }
@@ -80,6 +105,11 @@ function CLEANUP(){
 }
 function BUILD(ob){
   var o, P = null, i;
+  if (ob.cls === "prim") {   // a primitive receiver; inherited properties go on the prototype of its wrapper
+    P = typeof ob.v === "string" ? String.prototype : typeof ob.v === "number" ? Number.prototype : Boolean.prototype;
+    for (i=0;i<ob.inh.length;i++) { P[ob.inh[i].n] = ob.inh[i].v; PROTOCLEAN[PROTOCLEAN.length] = [P, ob.inh[i].n]; }
+    return ob.v;
+  }
   if (ob.cls === "Array") o = [];
   else if (ob.inh.length > 0) { P = {}; o = Object.create(P); }
   else o = {};
@@ -113,7 +143,7 @@ function MKCB(cb){
     n++;
     var a = [];
     for (var i=0;i<arguments.length;i++) a[i] = ENCX(arguments[i]);
-    LOG[LOG.length] = {cb:a, "this":ENCX(this)};
+    LOG[LOG.length] = {cb:a, "this":ENCTHIS(this)};
     switch (cb.k) {
       case "const": return cb.v;
       case "even": return arguments[cb.ip-1] % 2 === 0;
@@ -161,15 +191,15 @@ function INVOKE(m, recv, a){
 }
 // one method case
 function RC(c){
-  OBJIDS = []; OBJ = {};
+  OBJIDS = []; OBJ = {}; WRAPS = [];
   var res;
   try {
-    for (var i=0;i<c.objs.length;i++){ var o = BUILD(c.objs[i]); OBJ[i+3] = o; OBJIDS[OBJIDS.length] = [o, i+3]; }
+    for (var i=0;i<c.objs.length;i++){ var o = BUILD(c.objs[i]); OBJ[i+3] = o; if (c.objs[i].cls !== "prim") OBJIDS[OBJIDS.length] = [o, i+3]; }
     var args = RESOLVEALL(c.args), thr = "", ret;
     try { ret = INVOKE(c.m, OBJ[3], args); }
     catch (e) { if (e instanceof Error) { thr = e.name; ret = undefined; } else { thr = "value"; ret = e; } }
     var objs = [];
-    for (i=0;i<c.objs.length;i++) objs[i] = SHOW(OBJ[i+3]);
+    for (i=0;i<c.objs.length;i++) objs[i] = c.objs[i].cls === "prim" ? {prim:ENC(OBJ[i+3])} : SHOW(OBJ[i+3]);
     res = {thr:thr, ret:ENCX(ret), objs:objs, aproto:APROTO()};
   } finally { CLEANUP(); }
   return {__enc:res};
@@ -196,7 +226,7 @@ function DOSTEP(A, s){
   throw new Error("bad step");
 }
 function RH(h){
-  OBJIDS = []; OBJ = {};
+  OBJIDS = []; OBJ = {}; WRAPS = [];
   var A = []; OBJ[3] = A; OBJIDS[0] = [A,3];
   for (var i=0;i<h.path.length;i++){ try { DOSTEP(A, h.path[i]); } catch (e) {} }
   var thr = "", ret;
@@ -207,7 +237,7 @@ function RH(h){
 }
 `
 
-var methodFams = []string{"slice", "splice", "index", "range2", "simple", "sortnum", "sortstr", "iter", "conv", "big", "ctor"}
+var methodFams = []string{"slice", "splice", "index", "range2", "simple", "sortnum", "sortstr", "iter", "conv", "big", "ctor", "prim"}
 
 const modelProps = "INVARIANTS LengthAboveIndices LengthIsUint32\nPROPERTIES NonWritableLengthStable ShrinkDeletesTail GrowKeepsElements\n"
 
